@@ -114,10 +114,10 @@ def count (b : BlockDef) : Nat := (b.cxmax + 1 - b.cxmin) * (b.cymax + 1 - b.cym
 end BlockDef
 
 /-- `BlockDefinition::as_blob` (block_definition.rs:123-145); `ensure!` that the index follows the tiles -/
-def encBlockDef (b : BlockDef) : Outcome Bytes := do
-  must (decide (b.tiles.off + b.tiles.len < U64))
-  ensure (b.tiles.off + b.tiles.len == b.index.off)
-  pure (beEnc 1 b.z ++ (beEnc 4 b.x ++ (beEnc 4 b.y ++ (beEnc 1 b.cxmin ++ (beEnc 1 b.cymin ++ (beEnc 1 b.cxmax ++
+def encBlockDef (b : BlockDef) : Outcome Bytes :=
+  if b.tiles.off + b.tiles.len ≥ U64 then .panic
+  else if b.tiles.off + b.tiles.len ≠ b.index.off then .err
+  else .ok (beEnc 1 b.z ++ (beEnc 4 b.x ++ (beEnc 4 b.y ++ (beEnc 1 b.cxmin ++ (beEnc 1 b.cymin ++ (beEnc 1 b.cxmax ++
     (beEnc 1 b.cymax ++ (beEnc 8 b.tiles.off ++ (beEnc 8 b.tiles.len ++ beEnc 4 b.index.len)))))))))
 
 /-- `TileBBox::new(level, …)?` as a check (tile_bbox.rs:72-92) -/
@@ -140,8 +140,8 @@ def decBlockDef (bs : Bytes) : Outcome BlockDef := do
   let (tl, r) ← readBE 8 r
   let (il, _) ← readBE 4 r
   must (decide (off + tl < U64))
-  must (decide (x * 256 < U32) && decide (cxmin + x * 256 < U32))
-  must (decide (y * 256 < U32) && decide (cymin + y * 256 < U32))
+  must (decide (cxmin + x * 256 < U32))      -- covers `x * 256` as well
+  must (decide (cymin + y * 256 < U32))
   must (decide (cxmax + x * 256 < U32))
   must (decide (cymax + y * 256 < U32))
   ensure (bboxOk z (cxmin + x * 256) (cymin + y * 256) (cxmax + x * 256) (cymax + y * 256))
